@@ -90,3 +90,7 @@ class Sim:
     def shrink_candidates(self, trace: dict) -> Iterator[dict]:
         """Property-specific simplifications beyond generic op dropping (config, arguments)."""
         return iter(())
+
+    def shrink_passes(self):
+        """Ordered list of candidate generators (each: trace -> iterator of traces)."""
+        return [self.shrink_candidates]
